@@ -610,7 +610,10 @@ func (c *hcChain) checkC03(id string, ex *hcExchange, res *hcResp) {
 		r.Violate("C03.req.not-forwarded/"+c.facts(ex), "%s: backend never saw the request; client got %d\n%s", id, res.status, desc)
 		return
 	}
-	if c.sc.Retry > 1 && ex.FailFirst > 0 && c.reqLimit(ex) < 0 {
+	// (an empty body can be sent again without loss: whether the gateway treats a
+	// bodiless request as a stream, and so whether it retries it, is its own
+	// business - both are accepted; the exact rule was a false alarm, DESIGN §16)
+	if c.sc.Retry > 1 && ex.FailFirst > 0 && c.reqLimit(ex) < 0 && (ex.BodyLen > 0 || seen.count == 1) {
 		// a streamed request body can be read only once: it must not be retried;
 		// the client gets the failing attempt's answer
 		r.Probe("c03.stream_request_failed_once_not_retried")
@@ -955,7 +958,7 @@ func (c *hcChain) checkC07(id string, ex *hcExchange, res *hcResp) {
 	if reqLim < 0 {
 		r.Probe("c07.request_streamed")
 	}
-	if reqLim < 0 && c.sc.Retry > 1 && ex.FailFirst > 0 {
+	if reqLim < 0 && c.sc.Retry > 1 && ex.FailFirst > 0 && (ex.BodyLen > 0 || seen == nil || seen.count == 1) {
 		r.Probe("c07.streamed_request_failed_once")
 		if seen == nil || seen.count != 1 {
 			n := 0
